@@ -936,7 +936,7 @@ impl Circuit {
             // apply `gate_map` to the inputs and establish conditions 1+2
             let mut neg_out = false;
             let mut mapped = BumpVec::with_capacity_in(inputs.len(), bump);
-            let known_inputs = input_set.len() - gates.len();
+            let known_inputs = input_set.len() / 2 - gates.len();
             match kind {
                 GateKind::And | GateKind::Or => {
                     let (identity, dominator) = match kind {
@@ -944,18 +944,22 @@ impl Circuit {
                         GateKind::Or => (Literal::FALSE, Literal::TRUE),
                         _ => unreachable!(),
                     };
+                    // no early return: all inputs are checked for unknown inputs
+                    let mut dominated = false;
                     for &l in inputs {
                         let l = l.get_gate_no().map_or(l, |i| gate_map[i] ^ l.is_negative());
-                        if l.is_input() && l.get_input().unwrap() > known_inputs {
+                        if l.is_input() && l.get_input().unwrap() >= known_inputs {
                             return Err(l);
                         }
                         if l == dominator {
-                            gate_map[index] = dominator;
-                            return Ok(());
-                        }
-                        if l != identity {
+                            dominated = true;
+                        } else if l != identity {
                             mapped.push(l);
                         }
+                    }
+                    if dominated {
+                        gate_map[index] = dominator;
+                        return Ok(());
                     }
                 }
                 GateKind::Xor => {
@@ -966,14 +970,13 @@ impl Circuit {
                             neg_out ^= l.is_negative();
                             l.positive()
                         } else {
-                            let l = l.positive();
-                            debug_assert!(l != Literal::TRUE);
-                            if l == Literal::FALSE {
-                                continue; // x ⊕ ⊥ ≡ x
-                            }
-                            l
+                            l.positive()
                         };
-                        if l.is_input() && l.get_input().unwrap() > known_inputs {
+                        debug_assert!(l != Literal::TRUE);
+                        if l == Literal::FALSE {
+                            continue; // x ⊕ ⊥ ≡ x
+                        }
+                        if l.is_input() && l.get_input().unwrap() >= known_inputs {
                             return Err(l);
                         }
                         mapped.push(l);
@@ -984,11 +987,7 @@ impl Circuit {
 
             // first part of condition 4
             if inputs.is_empty() {
-                gate_map[index] = match kind {
-                    GateKind::And => Literal::TRUE,
-                    GateKind::Or => Literal::FALSE,
-                    GateKind::Xor => Literal::TRUE ^ neg_out,
-                };
+                gate_map[index] = kind.empty_gate() ^ neg_out;
                 return Ok(());
             }
 
@@ -1040,9 +1039,17 @@ impl Circuit {
                 });
             }
             // second part of condition 4
-            if let [l] = &inputs[..] {
-                gate_map[index] = *l ^ neg_out;
-                return Ok(());
+            match &inputs[..] {
+                [] => {
+                    // all inputs of an XOR gate cancelled out
+                    gate_map[index] = kind.empty_gate() ^ neg_out;
+                    return Ok(());
+                }
+                [l] => {
+                    gate_map[index] = *l ^ neg_out;
+                    return Ok(());
+                }
+                _ => {}
             }
 
             // save the children in the current order and sort
@@ -1074,6 +1081,8 @@ impl Circuit {
                     &mut new_gates,
                     &mut gate_map,
                 )?;
+            } else if root.get_input().is_some_and(|i| i >= self.inputs.len()) {
+                return Err(root);
             }
         }
 
